@@ -374,6 +374,11 @@ class ZIPHandler(BaseHandler):
         if not self.config.getboolean("handlers.ZIP.ZIPHandler", "enabled"):
             return False
 
+        if type(self.vfs) is not VFS_Real:
+            # The archive and its cache are opened by path: an archive inside
+            # an archive has no path of its own on the real filesystem.
+            return False
+
         pattern = re.compile(self.config.get("handlers.ZIP.ZIPHandler", "pattern"))
 
         basename = self.selector
